@@ -167,7 +167,8 @@ def observe_import(chk: Check, docs: list[dict], label: str) -> list[dict]:
             fields = []
             if c and c.get("kind") == "dataclass":
                 # a document that names its property keys (doc["keys"]) is judged in the p<i> vocabulary of Docs.tla
-                inv = {v: f"p{k}" for k, v in (d.get("keys") or {}).items()}
+                # (different schemas may use the same key: the inverse is taken over the edges that leave THIS schema)
+                inv = {v: f"p{k}" for k, v in (d.get("keys") or {}).items() if d["edges"][int(k) - 1]["from"] == n}
                 fields = [[inv.get(f["wire"], f["wire"]), bool(f["required"]), norm_kind(f["kind"], classes, declared)] for f in c["fields"] if not f["wire"].startswith(concretise.MARK)]
                 doc0 = c.get("doc", "")
                 info[n] = {"circ": doc0.startswith("[Circular reference"), "depthph": doc0.startswith("[Maximum recursion"), "unres": False, "selfstub": doc0.startswith("[Self-referencing"), "path": doc0}
@@ -319,6 +320,16 @@ def run(chk: Check) -> None:
     hdocs = [dict(d, markers=True) for d in docs if d["edges"] and all(e["from"] == "H" for e in d["edges"]) and {e["to"] for e in d["edges"]} <= {"FooBar", "Foo_Bar"}]
     chk.require(len(hdocs) >= 60, "colliding-schema-name family too small")
     judge(chk, observe_import(chk, hdocs, "imp[namecollide]"), "import[namecollide]")
+    # thresholds on NAME LENGTH: two long schema names with a long common prefix (the usual ...Request / ...Response pair), each with an inline
+    # object under the SAME property key - whatever the generator does to keep derived names short must keep them distinct
+    stem = "CustomerOrderFulfilmentNotificationSettingsBulkUpdateOperation"   # 62 characters
+    lnames = [stem + "Request", stem + "Response", "L"]
+    docs = gen_graphs(chk, lnames, ["inline", "arrInline"] if not thorough else ["inline", "arrInline", "map", "oneOf"], 2, req=(False,))
+    ldocs = [dict(d, keys={"1": "preferred_delivery_window", "2": "preferred_delivery_window"}) for d in docs
+             if len(d["edges"]) == 2 and {d["edges"][0]["from"], d["edges"][1]["from"]} == set(lnames[:2]) and all(e["to"] != e["from"] for e in d["edges"])
+             and not (d["edges"][0]["to"] == d["edges"][1]["from"] and d["edges"][1]["to"] == d["edges"][0]["from"])]
+    chk.require(len(ldocs) >= 40, "long-name family too small")
+    judge(chk, observe_import(chk, ldocs, "imp[longnames]"), "import[longnames]")
     # accumulation inside ONE document: many array-of-inline-object schemas (each parsed twice) before a chain of named schemas that is
     # first entered three references deep - whatever the parser counts while it walks must be back at rest before the chain is reached
     for limit, n in ((40, 45), (150, 160)) if thorough else ((40, 45),):
